@@ -3,6 +3,7 @@ import SmVerif.Model.Vlq
 import SmVerif.Model.Lookup
 import SmVerif.Model.V3Spec
 import SmVerif.Model.Paths
+import SmVerif.Model.DrvRam
 /-
 Line-protocol driver: one case per input line, one output line per case:
   <model>\t<spec>\t<wf>
@@ -170,6 +171,7 @@ def handle (toks : List String) : String :=
   | some op =>
     if op.startsWith "vlq." then handleVlq toks
     else if op.startsWith "map." then handleMap toks
+    else if op.startsWith "ram." then DrvRam.handleRam toks
     else handleMisc toks
 
 partial def loop (h : IO.FS.Stream) (out : IO.FS.Stream) : IO Unit := do
